@@ -819,6 +819,14 @@ package gohlslib
 //@ pred fmp4Pre(s *muxerSegmenter, track *muxerTrack) := nolocks() && trackOK(track) && parentOK(s, track) && s.variant == track.stream.variant
 //@   && (s.variant == MuxerVariantLowLatency ==> (s.fmp4SampleDurations != nil && s.partMinDuration >= 0 && forall(k, has(s.fmp4SampleDurations, k) ==> k > 0)))
 
+// C02, detection of parameter changes: every SPS / PPS NALU of the unit is compared, whole, with the stored
+// parameter set of its kind, and a comparison that finds a difference raises the pending-change flag
+// (cntps: ghost count of the SPS/PPS NALUs among the first n; callsum("bytes.Equal", 99): number of comparisons
+// that found the NALU equal to the stored set, so "sum < calls" means some comparison found a difference)
+//@ ufun cntps(au [][]byte, n int) int
+//@ axiom cntps_zero forall_as(a, [][]byte, cntps(a, 0) == 0)
+//@ axiom cntps_def forall_as(a, [][]byte, forall(n, n >= 1 ==> cntps(a, n) == cntps(a, n - 1) + ite(mod(a[n - 1][0], 32) == 7 || mod(a[n - 1][0], 32) == 8, 1, 0)))
+
 //@ func muxerSegmenter.writeH264
 //@   props C01 C02
 //@   role writer
@@ -845,8 +853,21 @@ package gohlslib
 //@   loop 1 invariant forall(i, (0 <= i && i < len(au)) ==> len(au[i]) >= 1)
 //@   atcall muxerSegmenter.fmp4WriteSample arg4.dts <= pts && arg4.ntp == ntp && arg4.PTSOffset == int32(pts - arg4.dts)
 //@   atcall muxerSegmenter.fmp4WriteSample old(track.firstRandomAccessReceived) || arg2
+//@   loop 1 invariant forall(i, (0 <= i && i < len(au)) ==> (au[i] == old(au[i]) && au[i][0] == old(au[i][0])))
+//@   loop 1 invariant calls("bytes.Equal") == cntps(au, ri + 1)
+//@   loop 1 invariant 0 <= callsum("bytes.Equal", 99) && callsum("bytes.Equal", 99) <= calls("bytes.Equal") && (callsum("bytes.Equal", 99) < calls("bytes.Equal") ==> s.pendingParamsChange)
+//@   atcall bytes.Equal arg1 == nalu && (mod(nalu[0], 32) == 7 ==> arg0 == track.Codec.(*codecs.H264).SPS) && (mod(nalu[0], 32) == 8 ==> arg0 == track.Codec.(*codecs.H264).PPS)
+//@   atcall muxerSegmenter.fmp4WriteSample callsum("bytes.Equal", 99) < calls("bytes.Equal") ==> (s.pendingParamsChange || arg3)
+//@   ensures [C02] (result == nil && callsum("bytes.Equal", 99) < calls("bytes.Equal")) ==>
+//@        (s.pendingParamsChange || (calls("muxerSegmenter.fmp4WriteSample") == 1 && callarg("muxerSegmenter.fmp4WriteSample", 0, 3) == 1))
+//@   ensures [C02] calls("bytes.Equal") == cntps(au, len(au))
 //@   reachable result == nil && calls("muxerSegmenter.fmp4WriteSample") == 1
 //@ end
+
+// the same for H265: VPS (32), SPS (33) and PPS (34) NALUs
+//@ ufun cntps5(au [][]byte, n int) int
+//@ axiom cntps5_zero forall_as(a, [][]byte, cntps5(a, 0) == 0)
+//@ axiom cntps5_def forall_as(a, [][]byte, forall(n, n >= 1 ==> cntps5(a, n) == cntps5(a, n - 1) + ite(mod(div(a[n - 1][0], 2), 64) >= 32 && mod(div(a[n - 1][0], 2), 64) <= 34, 1, 0)))
 
 //@ func muxerSegmenter.writeH265
 //@   props C01 C02
@@ -871,6 +892,15 @@ package gohlslib
 //@   loop 1 invariant forall(i, (0 <= i && i < len(au)) ==> len(au[i]) >= 1)
 //@   atcall muxerSegmenter.fmp4WriteSample arg4.dts <= pts && arg4.ntp == ntp && arg4.PTSOffset == int32(pts - arg4.dts)
 //@   atcall muxerSegmenter.fmp4WriteSample old(track.firstRandomAccessReceived) || arg2
+//@   loop 1 invariant forall(i, (0 <= i && i < len(au)) ==> (au[i] == old(au[i]) && au[i][0] == old(au[i][0])))
+//@   loop 1 invariant calls("bytes.Equal") == cntps5(au, ri + 1)
+//@   loop 1 invariant 0 <= callsum("bytes.Equal", 99) && callsum("bytes.Equal", 99) <= calls("bytes.Equal") && (callsum("bytes.Equal", 99) < calls("bytes.Equal") ==> s.pendingParamsChange)
+//@   atcall bytes.Equal arg1 == nalu && (mod(div(nalu[0], 2), 64) == 32 ==> arg0 == track.Codec.(*codecs.H265).VPS) && (mod(div(nalu[0], 2), 64) == 33 ==> arg0 == track.Codec.(*codecs.H265).SPS)
+//@        && (mod(div(nalu[0], 2), 64) == 34 ==> arg0 == track.Codec.(*codecs.H265).PPS)
+//@   atcall muxerSegmenter.fmp4WriteSample callsum("bytes.Equal", 99) < calls("bytes.Equal") ==> (s.pendingParamsChange || arg3)
+//@   ensures [C02] (result == nil && callsum("bytes.Equal", 99) < calls("bytes.Equal")) ==>
+//@        (s.pendingParamsChange || (calls("muxerSegmenter.fmp4WriteSample") == 1 && callarg("muxerSegmenter.fmp4WriteSample", 0, 3) == 1))
+//@   ensures [C02] calls("bytes.Equal") == cntps5(au, len(au))
 //@   reachable result == nil && calls("muxerSegmenter.fmp4WriteSample") == 1
 //@ end
 
@@ -914,6 +944,10 @@ package gohlslib
 //@   atcall muxerSegmenter.fmp4WriteSample arg1 == track && arg4.dts == pts && arg4.ntp == ntp && arg4.PTSOffset == 0
 //@   atcall muxerSegmenter.fmp4WriteSample old(track.firstRandomAccessReceived) || arg2
 //@   atcall muxerSegmenter.fmp4WriteSample track.firstRandomAccessReceived
+// C02: a sequence header OBU that differs from the stored one raises the pending-change flag (see writeH264)
+//@   loop 1 invariant 0 <= callsum("bytes.Equal", 99) && callsum("bytes.Equal", 99) <= calls("bytes.Equal") && (callsum("bytes.Equal", 99) < calls("bytes.Equal") ==> s.pendingParamsChange)
+//@   atcall bytes.Equal arg1 == obu && arg0 == track.Codec.(*codecs.AV1).SequenceHeader && h.Type == av1.OBUTypeSequenceHeader
+//@   atcall muxerSegmenter.fmp4WriteSample callsum("bytes.Equal", 99) < calls("bytes.Equal") ==> (s.pendingParamsChange || arg3)
 //@   reachable result == nil && calls("muxerSegmenter.fmp4WriteSample") == 1
 //@ end
 
